@@ -46,17 +46,37 @@ def parts_lit(ps):
     return C.lst([part_lit(p) for p in ps])
 
 
-def obs_lit(p):
-    nd = p.ndim
-    return ('{| ob_lo := %s; ob_hi := %s; ob_cs := %s; ob_bd := %s; ob_sz := %s; ob_fr := %s; '
-            'ob_nb := %s; ob_sd := %s |}'
-            % (C.qs(p.min_pt.tolist()), C.qs(p.max_pt.tolist()),
-               C.qss([v.tolist() for v in p.coord_vectors]),
-               C.qss([v.tolist() for v in p.cell_boundary_vecs]),
-               C.qss([v.tolist() for v in p.cell_sizes_vecs]),
-               C.qss([[float(a), float(b)] for a, b in p.boundary_cell_fractions]),
-               flags_lit([(bool(a), bool(b)) for a, b in p.nodes_on_bdry_byaxis]),
-               C.oqs([float(s) for s in (p.cell_sides if nd else [])])))
+OBS_ATTRS = ['lo', 'hi', 'cs', 'bd', 'sz', 'fr', 'nb', 'sd']
+
+
+def read_attr(p, name):
+    """Read one observable of a RectPartition and convert it to its Coq literal (copies nothing back)."""
+    if name == 'lo':
+        return C.qs(p.min_pt.tolist())
+    if name == 'hi':
+        return C.qs(p.max_pt.tolist())
+    if name == 'cs':
+        return C.qss([v.tolist() for v in p.coord_vectors])
+    if name == 'bd':
+        return C.qss([v.tolist() for v in p.cell_boundary_vecs])
+    if name == 'sz':
+        return C.qss([v.tolist() for v in p.cell_sizes_vecs])
+    if name == 'fr':
+        return C.qss([[float(a), float(b)] for a, b in p.boundary_cell_fractions])
+    if name == 'nb':
+        return flags_lit([(bool(a), bool(b)) for a, b in p.nodes_on_bdry_byaxis])
+    if name == 'sd':
+        return C.oqs([float(s) for s in (p.cell_sides if p.ndim else [])])
+    raise KeyError(name)
+
+
+def obs_lit(p, order=None):
+    """All observables of p; `order` = the order in which the attributes are read."""
+    vals = {}
+    for name in (order or OBS_ATTRS):
+        vals[name] = read_attr(p, name)
+    return ('{| ob_lo := %(lo)s; ob_hi := %(hi)s; ob_cs := %(cs)s; ob_bd := %(bd)s; ob_sz := %(sz)s; '
+            'ob_fr := %(fr)s; ob_nb := %(nb)s; ob_sd := %(sd)s |}' % vals)
 
 
 def impl(fn, kind='part'):
@@ -242,6 +262,58 @@ def correspondence(rng, tier):
         out = impl(lambda: odl.RectPartition(odl.IntervalProd(los, his), odl.RectGrid(*css)))
         add('OInit %s %s %s' % (C.qs(los), C.qs(his), C.qss(css)), out,
             {'op': 'init', 'lo': los, 'hi': his, 'cs': css, 'impl': str(out[1])[:40]})
+
+    # ---- histories: several partitions sharing ONE RectGrid object (lazily cached grid attributes),
+    # attributes read in random orders, re-read, and returned (freshly computed) arrays overwritten by the caller
+    for _ in range(40 * N):
+        nd = rng.choice([1, 2, 2, 3])
+        gaxes = [rand_axis(rng, 4, n=rng.choice([1, 1, 2, 3])) for _ in range(nd)]
+        css = [list(a[2]) for a in gaxes]
+        grid = odl.RectGrid(*css)
+        K = rng.choice([2, 2, 3, 4])
+        lims, parts = [], []
+        for k in range(K):
+            lo = [c[0] - rng.choice(DY) for c in css]
+            hi = [c[-1] + rng.choice(DY) for c in css]
+            lims.append((lo, hi))
+            if rng.random() < 0.5:
+                parts.append(odl.RectPartition(odl.IntervalProd(lo, hi), grid))
+            else:
+                parts.append(uniform_partition_fromgrid(grid, min_pt=list(lo), max_pt=list(hi)))
+        trace = []
+        for _ in range(rng.randint(4, 14)):
+            k = rng.randrange(K)
+            what = rng.choice(['sd', 'sd', 'sz', 'stride', 'extent', 'volume', 'fr', 'bd', 'gextent', 'mid'])
+            p = parts[k]
+            if what == 'stride':
+                arr = [p.grid.stride]
+            elif what == 'extent':
+                arr = [p.extent]
+            elif what == 'gextent':
+                arr = [p.grid.extent, p.grid.min_pt, p.grid.max_pt]
+            elif what == 'mid':
+                arr = [p.mid_pt, p.grid.mid_pt]
+            elif what == 'volume':
+                p.cell_volume
+                arr = []
+            elif what == 'sd':
+                arr = [p.cell_sides]
+            elif what == 'sz':
+                arr = list(p.cell_sizes_vecs)
+            else:
+                read_attr(p, what)
+                arr = []
+            scribble = rng.random() < 0.5
+            if scribble:                       # the caller overwrites what it was handed
+                for a_ in arr:
+                    a_[...] = -7.0
+            trace.append((k, what, scribble))
+        for k in rng.sample(range(K), K):
+            order = rng.sample(OBS_ATTRS, len(OBS_ATTRS))
+            lo, hi = lims[k]
+            out = ('IPart %s' % obs_lit(parts[k], order), parts[k])
+            add('OInit %s %s %s' % (C.qs(lo), C.qs(hi), C.qss(css)), out,
+                {'op': 'history', 'cs': css, 'limits': lims, 'k': k, 'trace': trace, 'read_order': order})
 
     # ---- OIndex
     for _ in range(60 * N):
